@@ -197,18 +197,34 @@ class SymbolDB(MutableMapping[str, IReflection]):
 
 		return orders
 
-	def _order_keys_recursive(self, for_module_path: str | None, symbol: IReflection, orders: list[str]) -> None:
+	def _order_keys_recursive(self, for_module_path: str | None, symbol: IReflection, orders: list[str], resolving: list[str] | None = None) -> None:
 		"""参照順にキーの一覧を更新
 
 		Args:
 			for_module_path: 出力モジュールパス
 			symbol: シンボル
 			orders: キーリスト
+			resolving: 参照先を展開中のキーリスト (default = None)
 		Returns:
 			キーリスト
+		Note:
+			```
+			* 型のシンボル自身が参照するキー(テンプレートタイプ・継承元など)は、使用側の属性には現れない場合がある(例: `G[int]`)
+			* そのため、型のキーを出力する前にシンボルテーブル上の型のシンボルの属性を先に出力する(前方参照対策)
+			```
 		"""
+		resolving = resolving if resolving is not None else []
 		for attr in symbol.attrs:
-			self._order_keys_recursive(for_module_path, attr, orders)
+			self._order_keys_recursive(for_module_path, attr, orders, resolving)
 
-		if not for_module_path or for_module_path == symbol.types.module_path and symbol.types.fullyname not in orders:
-			orders.append(symbol.types.fullyname)
+		key = symbol.types.fullyname
+		if not for_module_path or for_module_path == symbol.types.module_path and key not in orders:
+			if key in self.__items and key not in resolving:
+				resolving.append(key)
+				for attr in self.__items[key].attrs:
+					self._order_keys_recursive(for_module_path, attr, orders, resolving)
+
+				resolving.pop()
+
+			if not for_module_path or key not in orders:
+				orders.append(key)
